@@ -38,10 +38,21 @@ def parseObs (kv : List (String × String)) : Option Obs := do
          mono := getS kv "mono" == "1", tmin := (getI? kv "tmin").getD 0, tmax := (getI? kv "tmax").getD 0,
          toks := ← parseToks (getS kv "toks") }
 
+/-- The harness stops draining after `capTokens` tokens and answers `TOOMANY`: acceptable exactly when the profile
+    is expected to hold more tokens than that (the count check then cannot be made; counted as skipped). -/
+def capTokens : Int := 3000000
+
+def judgeTooMany (parts : List Part) : String :=
+  let hi := (parts.map Part.countRange).foldl (fun a r => a + r.2) 0
+  if hi > capTokens then "skip:too-many-tokens" else s!"fail:count:n>{capTokens} expected<={hi}"
+
 def handle : Handler := fun input impl =>
-  match parseParts (parseKV input), parseObs (parseKV impl) with
-  | some parts, some obs => ("-", judge parts obs)
-  | none, _ => ("-", "fail:driver:unparsable input")
-  | _, none => ("-", s!"fail:crash:unparsable observation {impl.take 80}")
+  match parseParts (parseKV input) with
+  | none => ("-", "fail:driver:unparsable input")
+  | some parts =>
+    if impl == "TOOMANY" then ("-", judgeTooMany parts) else
+      match parseObs (parseKV impl) with
+      | some obs => ("-", judge parts obs)
+      | none => ("-", s!"fail:crash:unparsable observation {impl.take 80}")
 
 end Pandora.Drv.C01
